@@ -8,4 +8,10 @@ require (
 	github.com/onflow/atree v0.0.0
 )
 
+require (
+	github.com/klauspost/cpuid/v2 v2.0.12 // indirect
+	github.com/x448/float16 v0.8.4 // indirect
+	github.com/zeebo/blake3 v0.2.4 // indirect
+)
+
 replace github.com/onflow/atree => /repo
